@@ -97,5 +97,54 @@ impl ChainTrackerEntry {
 
 }
 
+// ---- the persister: the tracker record of a node (key, serde (de)serialisation assumed a round trip, store put / get) ----
+#[verifier::external_body] pub struct VxKvvPersister { _p: u8 }
+#[verifier::external_body] pub struct Error { _p: u8 }
+pub uninterp spec fn ser_tracker_entry(e: ChainTrackerEntry) -> Seq<u8>;
+pub uninterp spec fn de_tracker_entry(b: Seq<u8>) -> ChainTrackerEntry;
+#[verifier::external_body]
+pub fn vx_ser_tracker_entry(e: &ChainTrackerEntry) -> (r: Result<Vec<u8>, Error>) ensures r.is_ok() ==> r->Ok_0@ == ser_tracker_entry(*e) { unimplemented!() }
+#[verifier::external_body]
+pub fn vx_de_tracker_entry(v: &Vec<u8>) -> (r: Result<ChainTrackerEntry, Error>) ensures r.is_ok() ==> r->Ok_0 == de_tracker_entry(v@) { unimplemented!() }
+impl VxKvvPersister {
+    pub uninterp spec fn kv_put_tracker(&self, node_id: PublicKey, value: Seq<u8>) -> bool;     // call marker: put(tracker key of this node, value)
+    pub uninterp spec fn stored_tracker(&self, node_id: PublicKey) -> Option<(u64, Vec<u8>)>;   // get(tracker key of this node)
+    #[verifier::external_body]
+    pub fn vx_put_tracker(&self, node_id: &PublicKey, value: Vec<u8>) -> (r: Result<(), Error>) ensures r.is_ok() ==> self.kv_put_tracker(*node_id, value@) { unimplemented!() }
+    #[verifier::external_body]
+    pub fn vx_get_tracker_record(&self, node_id: &PublicKey) -> (r: Result<Option<(u64, Vec<u8>)>, Error>) ensures r.is_ok() ==> r->Ok_0 == self.stored_tracker(*node_id) { unimplemented!() }
+
+//@fn vls-persist/src/kvv.rs :: impl<S: KVVStore, F: ValueFormat> Persist for KVVPersister<S, F> :: update_tracker props=C11
+    ensures
+        // the record written under this node's tracker key carries the tracker's tip, height, network, headers and listeners
+        r.is_ok() ==> exists|e: ChainTrackerEntry| e.tip@ == ser_headers(tracker.tip) && e.height == tracker.height && e.network == tracker.network
+            && e.headers@ == ser_all(tracker.headers) && e.listeners@ == listener_records(tracker.listeners)
+            && #[trigger] self.kv_put_tracker(*node_id, ser_tracker_entry(e)),                                    //[C11.store.tracker-record-written-under-node-key]
+//@sub /let key = make_key\(NODE_TRACKER_PREFIX, &node_id\.serialize\(\)\);/ => 
+//@sub /let model: ChainTrackerEntry = tracker\.into\(\);/ => let model: ChainTrackerEntry = ChainTrackerEntry::from(tracker);
+//@sub /F::ser_value\(&model\)\?/ => vx_ser_tracker_entry(&model)?
+//@sub /self\.put\(&key, value\)/ => self.vx_put_tracker(node_id, value)
+//@end
+
+//@fn vls-persist/src/kvv.rs :: impl<S: KVVStore, F: ValueFormat> Persist for KVVPersister<S, F> :: new_tracker props=C11
+    ensures
+        r.is_ok() ==> exists|e: ChainTrackerEntry| e.tip@ == ser_headers(tracker.tip) && e.height == tracker.height && e.network == tracker.network
+            && e.headers@ == ser_all(tracker.headers) && e.listeners@ == listener_records(tracker.listeners)
+            && #[trigger] self.kv_put_tracker(*node_id, ser_tracker_entry(e)),                                    //[C11.store.new-tracker-record-written]
+//@end
+
+//@fn vls-persist/src/kvv.rs :: impl<S: KVVStore, F: ValueFormat> Persist for KVVPersister<S, F> :: get_tracker props=C11
+    ensures
+        // the tracker handed to the restart path is built from the record stored under this node's tracker key
+        r.is_ok() ==> self.stored_tracker(node_id).is_some() && ({
+            let e = de_tracker_entry(self.stored_tracker(node_id)->Some_0.1@);
+            r->Ok_0.0.tip == de_tip(e.tip@) && r->Ok_0.0.height == e.height && r->Ok_0.0.network == e.network
+            && r->Ok_0.0.headers == de_all(e.headers@) && r->Ok_0.1@ == e.listeners@ }),                          //[C11.store.tracker-read-back-from-node-key]
+//@sub /let key = make_key\(NODE_TRACKER_PREFIX, &node_id\.serialize\(\)\);/ => 
+//@sub /self\.get\(&key\)\?/ => self.vx_get_tracker_record(&node_id)?
+//@sub /let model: ChainTrackerEntry = F::de_value\(&value\)\?;/ => let model: ChainTrackerEntry = vx_de_tracker_entry(&value)?;
+//@end
+}
+
 } // verus!
 fn main() {}
